@@ -105,7 +105,11 @@ def c09(args, rng):
         deg = rng.randint(0, 8)
         style = rng.random()
         cs = [float(rng.randint(-6, 6)) if style < 0.4 else rng.uniform(-3, 3) for _ in range(deg + 1)]
-        kx = rng.choice([rng.uniform(0.05, 20), 1.0, rng.uniform(0.5, 2.0), 2.0 ** rng.randint(-6, 6)])
+        kx = rng.choice([rng.uniform(0.05, 20), 1.0, rng.uniform(0.5, 2.0), 2.0 ** rng.randint(-6, 6), 10.0 ** rng.uniform(-18, -3), 2.0 ** rng.randint(-60, 40)])
+        if deg == 4 and rng.random() < 0.4:
+            # quartic form with u = 0 exactly: p0 - p1 + 2 p2 - 6 p3 + 24 p4 = 0
+            p1, p2, p3, p4 = [float(rng.randint(-3, 3)) for _ in range(4)]
+            cs = [p1 - 2 * p2 + 6 * p3 - 24 * p4, p1, p2, p3, p4]
         ky = rng.uniform(-5, 5)
         cases.append(f"integral T=l{deg} p={','.join(hx(t) for t in cs)} k={hx(kx)},{hx(ky)}")
         meta.append((deg, cs, kx, ky))
@@ -116,8 +120,8 @@ def c09(args, rng):
         if o.get('impl') == 'PANIC':
             continue
         tag = 'q4' if deg == 4 else f'i{deg}'
-        a = rng.choice([rng.uniform(0.05, 20), kx, 1.0, rng.uniform(0.7, 1.4)])
-        b = rng.choice([rng.uniform(0.05, 20), rng.uniform(0.7, 1.4), 2.0 ** rng.randint(-4, 4)])
+        a = rng.choice([rng.uniform(0.05, 20), kx, 1.0, rng.uniform(0.7, 1.4), 10.0 ** rng.uniform(-15, -2)])
+        b = rng.choice([rng.uniform(0.05, 20), rng.uniform(0.7, 1.4), 2.0 ** rng.randint(-4, 4), 10.0 ** rng.uniform(-15, -2)])
         for pt in (kx, a, b):
             ev_lines.append(f"eval T={tag} p={o['impl']} x={hx(pt)}")
         ev_meta.append((deg, cs, kx, ky, a, b, line))
@@ -143,6 +147,39 @@ def c09(args, rng):
                 failures=failures[:20], samples=cases[:2],
                 rule="C09: random degree 0..8, coefficients, knot x>0 (incl. away from 1), points a,b>0; F(knot.x)=knot.y and F(b)-F(a) vs the closed-form integral in 400-bit mpmath; tolerance 2^12 u * (sum|c| n! L^n max(a,b,kx) + |ky| + 1)")
 
+def c01(args, rng):
+    """Log<PolyK>::evaluate(v) against p(ln v) with the true logarithm"""
+    n = 3000 if args.tier == 'quick' else 100000
+    cases, meta = [], []
+    for _ in range(n):
+        deg = rng.randint(0, 8)
+        cs = [float(rng.randint(-6, 6)) if rng.random() < 0.4 else rng.uniform(-3, 3) for _ in range(deg + 1)]
+        v = rng.choice([rng.uniform(0.05, 20), 10.0 ** rng.uniform(-300, 300), 2.0 ** rng.randint(-1000, 1000), 10.0 ** rng.uniform(-12, -2), ulp_step(1.0, rng.randint(-50, 50))])
+        cases.append(f"eval T=l{deg} p={','.join(hx(t) for t in cs)} x={hx(v)}")
+        meta.append((deg, cs, v))
+    outs = run_impl(args.harness, cases)
+    failures, worst, classes, distinct = [], 0.0, {}, set()
+    for (deg, cs, v), line, o in zip(meta, cases, outs):
+        classes[f"deg{deg}"] = classes.get(f"deg{deg}", 0) + 1
+        distinct.add(line)
+        if o.get('impl') == 'PANIC':
+            failures.append(mkfail(line, 'panic for v>0')); continue
+        y = fh(o['impl'])
+        L = mp.log(mp.mpf(v))
+        exact = sum(mp.mpf(c) * L ** i for i, c in enumerate(cs))
+        S = sum(abs(mp.mpf(c)) * abs(L) ** i for i, c in enumerate(cs))
+        dS = sum(i * abs(mp.mpf(c)) * abs(L) ** (i - 1) for i, c in enumerate(cs) if i > 0)
+        u = mp.mpf(2) ** -53
+        tol = 4 * (deg + 2) * u * S + 4 * u * abs(L) * dS + mp.mpf(2) ** -1070
+        err = abs(mp.mpf(y) - exact) if y == y and abs(y) != float('inf') else mp.inf
+        if S > 0:
+            worst = max(worst, float(err / (u * (S + abs(L) * dS) + mp.mpf(2) ** -1070)))
+        if err > tol:
+            failures.append(mkfail(line, f"Log evaluate at v={v!r}: |impl - p(ln v)| = {float(err):.3e} exceeds 4(n+2)u*sum|c||ln v|^i + propagated ulp of ln ({float(tol):.3e})"))
+    return dict(evaluations=len(cases), distinct_nontrivial=len(distinct), classes=classes, worst_error_in_units=worst,
+                failures=failures[:20], samples=cases[:2],
+                rule="C01/Log: degrees 0..8, v from 1e-300 to 1e300 incl. tiny v and v within 50 ulps of 1; reference p(ln v) in 400-bit mpmath; tolerance 4(n+2)u*sum|c||ln v|^i + 4u|ln v|*sum i|c||ln v|^(i-1)")
+
 def main():
     ap = argparse.ArgumentParser()
     ap.add_argument('--tier', default='quick'); ap.add_argument('--seed', type=int, default=1)
@@ -150,7 +187,7 @@ def main():
     args = ap.parse_args()
     rng = random.Random(args.seed * 7919 + hash(args.prop) % 1000)
     t0 = time.time()
-    res = c10(args, rng) if args.prop == 'C10' else c09(args, rng)
+    res = c10(args, rng) if args.prop == 'C10' else (c01(args, rng) if args.prop == 'C01' else c09(args, rng))
     res['wall_s'] = time.time() - t0
     json.dump(res, open(args.out, 'w'))
 
